@@ -150,6 +150,15 @@ func redactNamespace(cmd *orderedmap.OrderedMap[string, any]) {
 	}
 }
 
+// stageNamespaceString recognises the short forms {$out: "coll"} and {$unionWith: "coll"}.
+func stageNamespaceString(key string, value any) (string, bool) {
+	if !redactNamespaces || (key != "$out" && key != "$unionWith") {
+		return "", false
+	}
+	name, ok := value.(string)
+	return name, ok
+}
+
 // hashNamespace pseudonymises a full namespace "db.coll" as P(db).P(coll), so that it lines up with the
 // pseudonyms of $db and of the collection fields also when the collection starts with '$' (db.$cmd.aggregate).
 func hashNamespace(ns string) string {
@@ -394,6 +403,10 @@ func redactPipelineStage(stage interface{}, redactFieldNames bool, keyPath []str
 			v := el.Value
 			redactedKey := k
 			newKeyPath := append(keyPath, k)
+			if name, ok := stageNamespaceString(k, v); ok {
+				newMap.Set(redactedKey, HashName(name))
+				continue
+			}
 			opMeta, isOp := getOp(newKeyPath, inSearchStage)
 			if redactFieldNames && (!isOp || (isOp && opMeta == nil)) {
 				redactedKey = HashName(k)
@@ -642,6 +655,24 @@ func redactQueryValues(obj *orderedmap.OrderedMap[string, any], redactFieldNames
 		if redactFieldNames {
 			if !isOp {
 				redactedKey = HashName(k)
+			}
+		}
+		// stages of sub-pipelines ($lookup.pipeline, $unionWith.pipeline, $facet ...) come through here: their
+		// collection arguments are namespaces, whatever the value-redaction mode
+		if redactNamespaces {
+			if name, ok := stageNamespaceString(k, v); ok {
+				newObj.Set(redactedKey, HashName(name))
+				continue
+			}
+			if isOp && coreOp == Namespace {
+				if name, ok := v.(string); ok {
+					newObj.Set(redactedKey, HashName(name))
+					continue
+				}
+				if nsDoc, ok := v.(*orderedmap.OrderedMap[string, any]); ok {
+					newObj.Set(redactedKey, redactNamespaceDocument(nsDoc))
+					continue
+				}
 			}
 		}
 		switch val := v.(type) {
